@@ -183,6 +183,13 @@ theorem route_manhattan_ends_on_outlines (s t : Box) (hsw : 0 < s.size.x) (hsh :
     ∃ a m1 m2 z, routeManhattan s t = .ok [a, m1, m2, z] ∧ onOutline s a ∧ onOutline t z :=
   routeManhattan_ends s t hsw hsh htw hth
 
+/-- The model of `__vector_snap_oblique` that `vectorSnap` runs (`snapObliqueLit`: the repaired code statement by
+statement — `(miss, intersection)` pairs, `min(key=miss)`, three assertions) returns exactly what the form used
+in the proofs (`snapOblique`: first in-range hit, all in-range hits equal) returns. -/
+theorem oblique_model_is_code (b : Box) (point source : V2) (h : point ≠ source) :
+    snapObliqueLit b point source = snapOblique b point source :=
+  snapObliqueLit_eq b point source h
+
 /-! ## Non-vacuity -/
 
 -- the call that used to fail `assert len(intersections) < 2` (edge aimed at a corner)
